@@ -184,7 +184,7 @@ def _grid_case(args):
     return st, failures, dict(ctx.used), len(ctx.checked)
 
 
-def run_grid(cdef, tier, seed, max_fail=5, procs=16):
+def run_grid(cdef, tier, seed, max_fail=300, procs=16):
     """bounded stand-in / concrete enumeration: returns stats dict (cases are evaluated in a process pool)"""
     ev = nontriv = skipped = 0
     fails, samples, seen = [], [], set()
@@ -424,6 +424,8 @@ def main(argv=None):
         "samples": (sample_obls + b_samples) or [{"note": "no sample"}],
         "undecided": [n for n, _ in undecided], "known_findings_fired": [c for _, c in known_hits],
     }
+    if known_hits:
+        cov["open_known_findings"] = [f"{h.get('what')} [{cl}]" for h, cl in known_hits]
     if level == "other":
         cov["explanation"] = (f"{n_dis} of {n_obl} obligations discharged; {len(known_hits)} clause(s) fail and are listed as known findings; "
                               f"{len(undecided)} undecided; {len(violations)} violation(s). Not reported as proved.")
